@@ -97,11 +97,19 @@ func (reg *Reg) referrerListByAPI(ctx context.Context, r ref.Ref, config scheme.
 		Tags:    []string{},
 	}
 	var link *url.URL
+	linkSeen := map[string]bool{}
 	// loop for paging
 	for {
 		rlAdd, linkNext, err := reg.referrerListByAPIPage(ctx, r, config, link)
 		if err != nil {
 			return rl, err
+		}
+		// a registry sending a Link that was already followed would be paged forever
+		if linkNext != nil {
+			if linkSeen[linkNext.String()] {
+				return rl, fmt.Errorf("referrers list received a Link that was already followed: %s", linkNext.String())
+			}
+			linkSeen[linkNext.String()] = true
 		}
 		if rl.Manifest == nil {
 			rl = rlAdd
